@@ -183,6 +183,10 @@ def run_tlc(module, cfg_path, workers=16, env=None, timeout=3600, simulate=None,
         if m:
             res.generated = int(m[-1])
             res.distinct = int(m[-1])
+    if expect_violation and not ok_end and 'Error:' in res.log and 'Parsing or semantic analysis failed' not in res.log and 'ConfigFileException' not in res.log:
+        # a mutant may also break the model so badly that TLC cannot evaluate a next state / invariant: it is rejected all the same
+        res.violation = 'evaluation error (mutant leaves the model ill-defined)'
+        return res
     if not ok_end or proc.returncode != 0:
         raise TlcFailure('TLC failed on %s (%s), exit %s:\n%s' % (module, cfg_path, proc.returncode, tail(res.log)))
     return res
